@@ -5,7 +5,10 @@
     * `nextLineC`     the same loop over a source that delivers its bytes in chunks (a pipe)
     * `pull`          `yash-syntax/src/parser/lex/core.rs  LexerCore::peek_char` driven by
                       `Parser::command_line` (a new line is pulled only when the buffer is exhausted)
-    * `readLine`      `yash-builtin/src/read/input.rs  read` (+ `read_char`), same descriptor
+    * `readLine`      `yash-builtin/src/read/input.rs  read` (+ `read_char`), same descriptor; its result
+                      is the vector of attributed characters of the C01 model (`Expansion.AttrChar`), and
+                      `assigning::assign` is **composed from C01** (`Expansion.readAssign`: `Ifs::ranges`,
+                      `skip_quotes`, `strip`), not re-modelled here
     * `loop`          `yash-semantics/src/runner.rs  read_eval_loop_impl`
     * `step`/`runK`   execution of the parsed command (small-step, explicit continuation), with the
                       built-ins that matter here: `probe`, `read`, `alias`, `unalias`, `set`, `cat`
@@ -14,9 +17,10 @@
   script descriptor.  When the script *is* standard input (`sh -s`, fed by a file or a pipe) commands
   that read standard input consume from that same cursor (`shared = true`); for `sh -c` standard
   input is the separate stream `State.data`.
-  Import-free and executable.
+  Executable; imports only other areas' import-free models (`YashModel.Expansion.Model`).
 -/
 import YashModel.Input.Syntax
+import YashModel.Expansion.Model
 namespace YashModel.Input
 
 abbrev Byte := UInt8
@@ -249,14 +253,21 @@ inductive RStat where
   | err       -- `read_char` failed (invalid UTF-8)
   deriving DecidableEq, Repr
 
+/-- the attributed characters `read` collects: `yash_env::semantics::expansion::attr::AttrChar` as modelled
+    by C01 (`plain` / `quoting` / `quoted` of read/input.rs are `plainChar`, `readQuoting`, `readQuoted`) -/
+abbrev AChar := Expansion.AttrChar
+
 /-- `read` of `read/input.rs` with `read_char` inlined: one byte per step; `buf` holds the bytes of
     the character being assembled, `esc` says that the previous character was an unquoted backslash.
-    Result: characters with their quoting, how it ended, the rest of the stream.  A backslash-newline
-    pair is a line continuation unless `raw`.  `d` is the delimiter (`-d`, newline by default; a single
-    byte, hence below 128). -/
-def readLineGo (d : Nat) (raw : Bool) : Bool → List Byte → List Byte → List (Char × Bool) →
-    (List (Char × Bool) × RStat × List Byte)
-  | _, buf, [], acc => (acc, if buf = [] then .eof else .err, [])       -- `None => break false`
+    Result: the attributed characters of the line (`result`: a backslash that escapes a character is
+    kept as a *quoting* character followed by the *quoted* character, exactly as in the Rust vector),
+    how it ended, the rest of the stream.  A backslash-newline pair is a line continuation unless
+    `raw`; a backslash followed by the end of the input stays as a lone quoting character.  `d` is
+    the delimiter (`-d`, newline by default; a single byte, hence below 128). -/
+def readLineGo (d : Nat) (raw : Bool) : Bool → List Byte → List Byte → List AChar →
+    (List AChar × RStat × List Byte)
+  | esc, buf, [], acc =>                                                 -- `None => break false`
+    (if esc then acc ++ [Expansion.readQuoting '\\'] else acc, if buf = [] then .eof else .err, [])
   | esc, buf, b :: rest, acc =>
     match utf8Check (buf ++ [b]) with
     | .more => readLineGo d raw esc (buf ++ [b]) rest acc
@@ -264,19 +275,20 @@ def readLineGo (d : Nat) (raw : Bool) : Bool → List Byte → List Byte → Lis
     | .ok code =>
       if esc then                                                         -- the character after `\`
         (if code = 10 then readLineGo d raw false [] rest acc               -- line continuation
-         else readLineGo d raw false [] rest (acc ++ [(Char.ofNat code, true)]))
+         else readLineGo d raw false [] rest
+                (acc ++ [Expansion.readQuoting '\\', Expansion.readQuoted (Char.ofNat code)]))
       else if code = d then (acc, .found, rest)                           -- delimiter
       else if code = 92 ∧ !raw then readLineGo d raw true [] rest acc       -- backslash escape
-      else readLineGo d raw false [] rest (acc ++ [(Char.ofNat code, false)])
+      else readLineGo d raw false [] rest (acc ++ [Expansion.plainChar (Char.ofNat code)])
 
-def readLine (d : Nat) (raw : Bool) (inp : List Byte) (acc : List (Char × Bool)) :
-    List (Char × Bool) × RStat × List Byte := readLineGo d raw false [] inp acc
+def readLine (d : Nat) (raw : Bool) (inp : List Byte) (acc : List AChar) :
+    List AChar × RStat × List Byte := readLineGo d raw false [] inp acc
 
 /-- the same `read` over a chunked source -/
 def readLineCGo (d : Nat) (raw : Bool) (esc : Bool) (buf : List Byte) (cs : List (List Byte))
-    (acc : List (Char × Bool)) : List (Char × Bool) × RStat × List (List Byte) :=
+    (acc : List AChar) : List AChar × RStat × List (List Byte) :=
   match cs with
-  | [] => (acc, if buf = [] then .eof else .err, [])
+  | [] => (if esc then acc ++ [Expansion.readQuoting '\\'] else acc, if buf = [] then .eof else .err, [])
   | [] :: cs' => readLineCGo d raw esc buf cs' acc
   | (b :: c) :: cs' =>
     match utf8Check (buf ++ [b]) with
@@ -285,34 +297,28 @@ def readLineCGo (d : Nat) (raw : Bool) (esc : Bool) (buf : List Byte) (cs : List
     | .ok code =>
       if esc then
         (if code = 10 then readLineCGo d raw false [] (c :: cs') acc
-         else readLineCGo d raw false [] (c :: cs') (acc ++ [(Char.ofNat code, true)]))
+         else readLineCGo d raw false [] (c :: cs')
+                (acc ++ [Expansion.readQuoting '\\', Expansion.readQuoted (Char.ofNat code)]))
       else if code = d then (acc, .found, c :: cs')
       else if code = 92 ∧ !raw then readLineCGo d raw true [] (c :: cs') acc
-      else readLineCGo d raw false [] (c :: cs') (acc ++ [(Char.ofNat code, false)])
+      else readLineCGo d raw false [] (c :: cs') (acc ++ [Expansion.plainChar (Char.ofNat code)])
 termination_by chunkMeasure cs
 decreasing_by
   all_goals simp [chunkMeasure]
   all_goals omega
 
-def isIfsWs (p : Char × Bool) : Bool := !p.2 && (p.1 == ' ' || p.1 == '\t' || p.1 == '\n')
+/-- `assigning::assign`, composed from the C01 model (`Expansion.readAssign`: `Ifs::ranges` over the
+    attributed characters, every variable but the last gets one field, the last one its field or — when
+    more follow — the rest of the line without trailing IFS white space; `skip_quotes` + `strip`), with
+    the default IFS (the scripts never set it): the values are assigned to the names in order -/
+def assignValues : List String → List (List Char) → List (String × String) → List (String × String)
+  | n :: ns, v :: vs, vars => assignValues ns vs (setVar vars n (String.ofList v))
+  | _, _, vars => vars
 
-def dropWs (cs : List (Char × Bool)) : List (Char × Bool) := cs.dropWhile isIfsWs
-
-def trimEndWs (cs : List (Char × Bool)) : List (Char × Bool) :=
-  (cs.reverse.dropWhile isIfsWs).reverse
-
-def strOf (cs : List (Char × Bool)) : String := String.ofList (cs.map (·.1))
-
-/-- assignment of the fields of a line to the variables of `read` (default IFS): every variable but
-    the last gets one field, the last gets the remainder without surrounding IFS white space -/
-def assignRead : List String → List (Char × Bool) → List (String × String) → List (String × String)
-  | [], _, vars => vars
-  | [v], cs, vars => setVar vars v (strOf (trimEndWs (dropWs cs)))
-  | v :: vs, cs, vars =>
-    let cs := dropWs cs
-    let field := cs.takeWhile (fun p => !isIfsWs p)
-    let rest := cs.dropWhile (fun p => !isIfsWs p)
-    assignRead vs rest (setVar vars v (strOf field))
+def assignRead (names : List String) (cs : List AChar) (vars : List (String × String)) :
+    List (String × String) :=
+  if names.isEmpty then vars
+  else assignValues names (Expansion.readAssign Expansion.Ifs.default cs (names.length - 1)) vars
 
 /-! ### Word expansion (parameter expansion + field splitting + quote removal, default IFS) -/
 
@@ -391,15 +397,15 @@ def outLines : Nat → List Byte → List Out
     if (nextLine inp).1 = [] then [] else Out.raw (nextLine inp).1 :: outLines n (nextLine inp).2
 
 /-- `read::main`: "input contains a nul byte" -/
-def hasNul (cs : List (Char × Bool)) : Bool := cs.any fun p => p.1.toNat == 0
+def hasNul (cs : List AChar) : Bool := cs.any fun p => p.value.toNat == 0
 
 /-- the variables after `read`: nothing is assigned when reading failed or a NUL was read -/
-def readAssign (names : List String) (cs : List (Char × Bool)) (st : RStat)
+def readAssign (names : List String) (cs : List AChar) (st : RStat)
     (vars : List (String × String)) : List (String × String) :=
   if st = .err || hasNul cs then vars else assignRead names cs vars
 
 /-- exit status of `read`: 0, 1 at end of input, 3 on a read error (`EXIT_STATUS_READ_ERROR`) -/
-def readExit (cs : List (Char × Bool)) (st : RStat) : Nat :=
+def readExit (cs : List AChar) (st : RStat) : Nat :=
   match st with
   | .err => 3
   | .found => if hasNul cs then 3 else 0
